@@ -119,3 +119,6 @@ func init() {
 }
 
 var dumpWorkload bool
+
+// lifetimeWantFinal makes runLifetime read every bucket at the end of the run.
+var lifetimeWantFinal bool
